@@ -1279,6 +1279,13 @@ func ruleIOLayer(c *Ctx) {
 		}
 		return "", false
 	}
+	// the file that declares the midi utility's commands
+	midiFile := ""
+	if p := c.ssapkg("cmd"); p != nil {
+		if g, ok := p.Members["midiCmdPort"].(*ssa.Global); ok {
+			midiFile = c.Fset.Position(g.Pos()).Filename
+		}
+	}
 	for _, fn := range c.srcFuncs() {
 		name := fname(fn)
 		allInstrs(fn, func(in ssa.Instruction) {
@@ -1318,6 +1325,9 @@ func ruleIOLayer(c *Ctx) {
 			}
 			if why, ok := isAllowed(what, name); ok {
 				c.ok(key, c.pos(in.Pos()), name, "allowed: "+why)
+			} else if what == "fmt.Print" && midiFile != "" && c.Fset.Position(fn.Pos()).Filename == midiFile {
+				// a helper of the midi utility, next to it in its file: the port listing is not a data command
+				c.ok(key, c.pos(in.Pos()), name, "allowed: declared in the midi utility's file (port listing, not a data command)")
 			} else {
 				c.bad(key, c.pos(in.Pos()), name, what+" used outside the I/O helpers: this command's input or output bypasses FILE / `-` / -o handling, so the result depends on the I/O path chosen")
 			}
